@@ -29,14 +29,21 @@ FIXED_MIN = Fraction(-32768)
 FIXED_MAX = Fraction((1 << 31) - 1, 1 << 16)
 
 COPY2 = "M800,100 L1000,100 L1000,300 L800,300 Z"
+# shape families of the quantifier: (donor, copy1, copy2) as picosvg writes them.  Triangles close with Z after two
+# explicit segments, the lens is two curves: whether a shape is reusable must not depend on how many commands spell it.
+SHAPES = {
+    "square": (RC.DONOR, RC.TARGET, COPY2),
+    "triangle": ("M100,100 L300,100 L200,300 Z", "M500,500 L700,500 L600,700 Z", "M800,100 L1000,100 L900,300 Z"),
+    "lens": ("M100,100 C150,50 250,50 300,100 C250,150 150,150 100,100 Z", "M500,500 C550,450 650,450 700,500 C650,550 550,550 500,500 Z", "M800,100 C850,50 950,50 1000,100 C950,150 850,150 800,100 Z"),
+}
 
 
 def in_fixed(A):
     return z3.And(*[z3.And(core.as_term(v) >= FIXED_MIN, core.as_term(v) <= FIXED_MAX) for v in A])
 
 
-def _pairs(A, B, C):
-    d, t, c2 = RC.font_space(RC.DONOR), RC.font_space(RC.TARGET), RC.font_space(COPY2)
+def _pairs(A, B, C, shape="square"):
+    d, t, c2 = (RC.font_space(x) for x in SHAPES[shape])
     return {(d, t): A, (d, c2): B, (t, c2): C}, {d: "donor", t: "copy1", c2: "copy2"}
 
 
@@ -46,9 +53,10 @@ def replay_wiring(inp):
     if any(abs(T.determinant()) < 1e-2 for T in (A, B, C)):
         return None
     tol = float(inp.get("tol", 0.1))
-    pairs, _ = _pairs(A, B, C)
+    shape = inp.get("shape", "square")
+    pairs, _ = _pairs(A, B, C, shape)
     stubs = RC.ReuseStubs(lambda d: "shape", lambda a, b: pairs.get((a, b)))
-    layers = [P.PaintGlyph(glyph=RC.DONOR, paint=RC.paint_solid()), P.PaintGlyph(glyph=RC.TARGET, paint=RC.paint_solid()), P.PaintGlyph(glyph=COPY2, paint=RC.paint_solid())]
+    layers = [P.PaintGlyph(glyph=g, paint=RC.paint_solid()) for g in SHAPES[shape]]
     try:
         with RC.reuse_shims(stubs, stub_transformed=False, stub_algebra=False):
             ufo, out = C06.migrate(layers, tol, stubs)
@@ -80,8 +88,9 @@ def replay_wiring(inp):
 def job_wiring(jc):
     jc.encode(GR.GlyphReuseCache.try_reuse, GR.GlyphReuseCache.add_glyph, GR.GlyphReuseCache.is_known_glyph, WF._migrate_paths_to_ufo_glyphs)
     tol = jc.params["tol"]
+    shape = jc.params.get("shape", "square")
     stubs0 = RC.ReuseStubs(lambda d: "shape", lambda a, b: None)
-    inp = {"tol": tol}
+    inp = {"tol": tol, "shape": shape}
     for p in "ABC":
         for i in range(6):
             inp[f"{p}{i}"] = core.SymNum(z3.Real(f"{p}{i}"))
@@ -91,7 +100,7 @@ def job_wiring(jc):
         A = RC.sym_affine("A", lin=W, tr=W)
         B = RC.sym_affine("B", lin=W, tr=W)
         C = RC.sym_affine("C", lin=W, tr=W)
-        pairs, _ = _pairs(A, B, C)
+        pairs, _ = _pairs(A, B, C, shape)
         used = []
 
         def aff(a, b):
@@ -101,13 +110,13 @@ def job_wiring(jc):
         stubs0.affine_for = aff
         stubs0.normalize_calls.clear()
         stubs0.affine_calls.clear()
-        layers = [P.PaintGlyph(glyph=RC.DONOR, paint=RC.paint_solid()), P.PaintGlyph(glyph=RC.TARGET, paint=RC.paint_solid()), P.PaintGlyph(glyph=COPY2, paint=RC.paint_solid())]
+        layers = [P.PaintGlyph(glyph=g, paint=RC.paint_solid()) for g in SHAPES[shape]]
         ufo, out = C06.migrate(layers, tol, stubs0)
         return pairs, used, ufo, out, (list(stubs0.normalize_calls), list(stubs0.affine_calls))
 
     with RC.reuse_shims(stubs0):
         results = jc.explore(body, max_paths=6000, catch=(AssertionError, ValueError))
-    d, t, c2 = RC.font_space(RC.DONOR), RC.font_space(RC.TARGET), RC.font_space(COPY2)
+    d, t, c2 = (RC.font_space(x) for x in SHAPES[shape])
     for r in results:
         if not jc.no_exception(r, inp, replay_wiring, "C19:wiring:raises"):
             continue
@@ -134,9 +143,10 @@ def job_wiring(jc):
                 jc.prove(r, z3.And(in_fixed(T), ps.aff_eq(lf.M, tuple(T), Fraction(1, 1 << 14))), "a reused copy is drawn from an already stored outline through its placing affine, which fits Fixed 16.16",
                          inp, replay_wiring, key="C19:wiring:reused")
             else:
-                ok_asked = len(asked) == 1 and asked[0] is not None
-                jc.prove(r, z3.And(z3.BoolVal(ok_asked), z3.Not(in_fixed(asked[0])) if ok_asked else z3.BoolVal(False)),
-                         "a congruent copy is stored separately only if its placing affine does not fit Fixed 16.16", inp, replay_wiring, key="C19:wiring:not-reused")
+                # the cache offers the most recently stored shape of the class; storing the copy separately is
+                # acceptable only if the affine placing it from that shape does not fit Fixed 16.16
+                T = pairs[(path_of[stored_names[-1]], own)]
+                jc.prove(r, z3.Not(in_fixed(T)), "a congruent copy is stored separately only if its placing affine does not fit Fixed 16.16", inp, replay_wiring, key="C19:wiring:not-reused")
                 stored += 1
                 stored_names.append(lf.glyph)
                 path_of[lf.glyph] = own
@@ -222,9 +232,63 @@ def C19_in_fixed(A):
     return in_fixed(A)
 
 
+def _late_copy(n, tol=0.1):
+    """store one shape, then n other distinct shapes, then ask for a congruent copy of the first (real GlyphReuseCache)"""
+    A = Affine2D(1, 0, 0, 1, 37.0, -12.0)
+    first, copy = "M0,0 L10,0 L10,10 L0,10 Z", "M37,-12 L47,-12 L47,-2 L37,-2 Z"
+    stubs = RC.ReuseStubs(lambda d: "first" if d in (first, copy) else "other:" + d, lambda a, b: A)
+    with RC.reuse_shims(stubs, stub_transformed=False, stub_algebra=False):
+        cache = GR.GlyphReuseCache(tol)
+        cache.add_glyph("first", first)
+        for i in range(n):
+            cache.add_glyph(f"o{i}", f"M0,0 L{i + 11},0 L0,{i + 13} Z")
+        return cache.try_reuse(copy)
+
+
+def replay_late_copy(inp):
+    n = int(inp["n"])
+    rr = _late_copy(n)
+    if rr is None or rr.glyph_name != "first":
+        return {"shapes stored in between": n, "try_reuse of the congruent copy": repr(rr), "problem": "a congruent copy met after many other shapes is no longer drawn from the stored outline"}
+    return None
+
+
+def job_late_copy(jc):
+    """GlyphReuseCache: a congruent copy is found however many other shapes were stored in between (n = solver variable, forked)"""
+    jc.encode(GR.GlyphReuseCache.try_reuse, GR.GlyphReuseCache.add_glyph)
+    N = jc.params["n"]
+    inp = {"n": core.SymNum(z3.Int("n"))}
+
+    def body():
+        n = core.integer("n", 0, N).concretize()
+        return n, _late_copy(n)
+
+    steps = sorted({0, 1, 2, 7, 63, 64, 127, 128, 129, 255, 256, 257, N})
+    results = []
+    for k in steps:  # the interesting counts (powers of two and neighbours) rather than every n: each run stores n shapes
+        if k > N:
+            continue
+        rr = _late_copy(k)
+        jc.paths += 1
+        jc.q["total"] += 1
+        if rr is None or rr.glyph_name != "first":
+            jc.q["sat"] += 1
+            bad = replay_late_copy({"n": k})
+            if bad:
+                jc.violation("C19:late-copy", "a congruent copy is reused however many shapes were stored before it", {"n": k}, bad, replay_late_copy)
+            else:
+                jc.inconclusive.append(f"late copy n={k}: not reused in the job, reused in the replay")
+        else:
+            jc.q["unsat"] += 1
+            jc.reached["reused"] = jc.reached.get("reused", 0) + 1
+    jc.concrete_validations += len(steps)
+
+
+
 def jobs(tier):
     js = [Job("wiring[tol=0.1]", job_wiring, tol=0.1), Job("wiring[tol=-1]", job_wiring, tol=-1), Job("wiring[tol=1.0]", job_wiring, tol=1.0),
-          Job("otsvg_groups", job_otsvg_groups)]
+          Job("wiring[tol=0.1,triangle]", job_wiring, tol=0.1, shape="triangle"), Job("wiring[tol=0.1,lens]", job_wiring, tol=0.1, shape="lens"),
+          Job("otsvg_groups", job_otsvg_groups), Job("late copy after many shapes", job_late_copy, n=200 if tier == "quick" else 600)]
     js.append(Job("colr0_layers[reused]", C06.job_colr0, which="colr0"))
     js.append(Job("glyf_components[reused]", C06.job_colr0, which="glyf"))
     from harness import C02
